@@ -23,7 +23,10 @@ package common
 //@ property C08 C09 C11
 //@ func CheckKey(key []byte) error
 //@   ensures result == nil <==> (1 <= len(key) && len(key) <= MaxKeySize)
+//@   ensures result == nil || result == errKeySize
 //@ func CheckSubKey(subkey []byte) error
 //@   ensures result == nil <==> len(subkey) <= MaxSubKeyLen
+//@   ensures result == nil || result == errSubKeySize
 //@ func CheckKeySubKey(key []byte, field []byte) error
 //@   ensures result == nil <==> (1 <= len(key) && len(key) <= MaxKeySize && len(field) <= MaxSubKeyLen)
+//@   ensures result == nil || result == errKeySize || result == errSubKeySize
